@@ -5,6 +5,7 @@ from __future__ import annotations
 import copy
 import ipaddress
 import json
+import os
 import random
 import sys
 
@@ -218,6 +219,43 @@ def check_eq_hash(drv, rng, V, stats, n):
             V.fail(f"eq-model:{x == y}|{m['eq']}", f"{x} == {y} is {x == y} but equality of type and parameter dictionaries is {m['eq']}", {"kind": "eq", "a": x.as_dict, "b": y.as_dict})
 
 
+def check_hash_lifetime(rng, V, stats, n):
+    """equal actions have equal hashes at ANY time: also when one of them was hashed earlier - in this process before the
+    parameter dictionary it was built from went on being used, or in another interpreter (pickled after it was hashed)."""
+    import pickle
+    import subprocess
+    for i in range(n):
+        a = rand_action(rng)
+        p = dict(a.parameters)
+        x = Action(a.type, p)
+        hash(x)
+        ks = [k for k in KEYS if k not in p]
+        if not ks:
+            continue
+        k = rng.choice(ks)
+        p[k] = rand_value(rng, k)            # the caller goes on using its dictionary
+        y = Action(a.type, p)
+        stats["evaluations"] += 1
+        if x == y and hash(x) != hash(y):
+            V.fail("eq-hash-stale", f"two equal actions (built from one parameter dictionary, the first hashed before the dictionary got the key {k}) have different hashes", {"kind": "eq", "a": x.as_dict, "b": y.as_dict})
+            break
+    # another interpreter (its own string-hash salt) receives actions that were hashed here
+    acts = [rand_action(rng) for _ in range(20)]
+    for a in acts:
+        hash(a)
+    code = ("import sys, pickle\nfrom nsgverif import cyst_compat\nfrom AIDojoCoordinator.game_components import Action\n"
+            "acts = pickle.load(sys.stdin.buffer)\nbad = [i for i, a in enumerate(acts) if hash(a) != hash(Action.from_json(a.to_json())) or a != Action.from_json(a.to_json())]\nprint(bad)")
+    env = dict(os.environ, PYTHONHASHSEED=str(rng.randint(1, 1000)))
+    try:
+        out = subprocess.run([sys.executable, "-c", code], input=pickle.dumps(acts), capture_output=True, env=env, timeout=120)
+        stats["pickled_actions"] = len(acts)
+        if out.returncode == 0 and out.stdout.strip() not in (b"[]", b""):
+            V.fail("eq-hash-other-process", f"actions hashed in one interpreter and unpickled in another are equal to freshly decoded copies but hash differently (indices {out.stdout.decode().strip()})",
+                   {"kind": "eq", "actions": [a.as_dict for a in acts]})
+    except Exception:
+        pass
+
+
 def canon_d(d):
     return {"known_networks": sorted(map(norm, d["known_networks"])), "known_hosts": sorted(map(norm, d["known_hosts"])),
             "controlled_hosts": sorted(map(norm, d["controlled_hosts"])),
@@ -230,10 +268,15 @@ def rand_view(rng):
         return set(rng.sample(ips, rng.randint(0, min(k, len(ips))))) if ips else set()
     svc = lambda: Service(rng.choice(STRS), rng.choice(STRS), rng.choice(STRS), rng.random() < 0.5)
     dat = lambda: Data(rng.choice(STRS), rng.choice(STRS), rng.choice([0, 0, 5, 10 ** 9]), rng.choice(["", "txt", "ü"]))
+    nets = {Network(rand_ip(rng), rng.choice([8, 16, 24, 32])) for _ in range(rng.randint(0, 3))}
+    if nets and rng.random() < 0.3:
+        # nested networks: the same address with another mask is another element
+        n0 = rng.choice(sorted(nets, key=str))
+        nets.add(Network(n0.ip, rng.choice([m for m in (8, 16, 24, 25, 26, 32) if m != n0.mask])))
     return GameState(controlled_hosts=sub(), known_hosts=sub(6),
                      known_services={ip: {svc() for _ in range(rng.randint(0, 3))} for ip in sub()},
                      known_data={ip: {dat() for _ in range(rng.randint(0, 3))} for ip in sub()},
-                     known_networks={Network(rand_ip(rng), rng.choice([8, 16, 24, 32])) for _ in range(rng.randint(0, 3))},
+                     known_networks=nets,
                      known_blocks={ip: sub() for ip in sub()})
 
 
@@ -339,6 +382,10 @@ def main(prop, tier):
             if prop == "C14":
                 check_actions(drv, rng, V, stats, 6000 if q else 150000, 3000 if q else 60000)
                 check_eq_hash(drv, rng, V, stats, 2000 if q else 40000)
+                check_hash_lifetime(rng, V, stats, 300 if q else 3000)
+                # the wire as the server reads it: values that contain the marker text or white space at their ends
+                from . import check_coord as CC
+                CC.probe_marker_in_values(lambda tags, sig, desc, rep: V.fail(sig, desc, rep) if "C14" in tags else None, stats)
             else:
                 check_views(drv, rng, V, stats, 5000 if q else 120000)
                 # every response of real sessions: framing + the view sent is the view held
